@@ -692,7 +692,7 @@ def explore_sp_special(case):
     try:
         alone = [cA(), cB()]
         nrun = 0
-        for choices, results, npts, capped in threads.explore([cA, cB], ("cyecca/symbolic.py",), 2, max_runs=(6000 if case.get("tier") != "thorough" else 200000),
+        for choices, results, npts, capped in threads.explore([cA, cB], ("cyecca/symbolic.py",), 2, max_runs=(6000 if case.get("tier") != "thorough" else 20000),
                                                                granularity=("call" if case.get("tier") != "thorough" else "line")):
             if capped:
                 res.counters["thread_schedules_capped"] += 1
